@@ -202,6 +202,26 @@ def sessOp (d : SessDrv) (toks : List String) : SessDrv × String :=
               (({ d with sess := s' }.setQueue cid (qFailedBegin q total)).setQueue ncid nq, "log ok=1")
             | _, _ => (d, "disabled")
     | _, _, _, _ => (d, "bad-op")
+  | ["logf", w, sid, clock, args] =>
+    -- addEvent while every array allocation fails: an event that fits is logged as usual; one that does not fit makes
+    -- replaceChannel fail (createChannel throws), addEvent retries beginWrite on the old queue and returns false; the writer
+    -- keeps its channel and the session is unchanged
+    match w.toNat?, sid.toNat?, clock.toNat?, hexArg' args with
+    | some w, some sid, some clock, some args =>
+      match Sess.lookupWriter d.sess w with
+      | none => (d, "disabled")
+      | some cid =>
+        let total := 4 + 16 + args.length
+        match d.queue cid with
+        | none => (d, "disabled")
+        | some q =>
+          match qCommit q total with
+          | some q' =>
+            match Sess.step d.sess (.log w sid clock args true) with
+            | some s' => ({ d with sess := s' }.setQueue cid q', "log ok=1 af=0")
+            | none => (d, "disabled")
+          | none => (d.setQueue cid (qFailedBegin (qFailedBegin q total) total), "log ok=0 af=1")
+    | _, _, _, _ => (d, "bad-op")
   | ["dw", w] =>
     match w.toNat? with
     | some w => match Sess.step d.sess (.destroyWriter w) with
